@@ -34,6 +34,7 @@ from pathlib import Path
 from src.core.base import BaseLintContext, MultiLanguageLintRule
 from src.core.linter_utils import load_linter_config
 from src.core.types import Violation
+from src.linter_config.directive_markers import has_bare_line_ignore
 from src.linter_config.rule_matcher import check_bracket_rules
 
 from .config import MethodPropertyConfig
@@ -334,7 +335,7 @@ class MethodPropertyRule(MultiLanguageLintRule):  # thailint: ignore[srp,dry]
         if "thailint:" in line_lower and "ignore" in line_lower:
             bracket = re.search(r"ignore\[([^\]]*)\]", line_lower)
             if bracket is None:
-                return True
+                return has_bare_line_ignore(line_text)
             return check_bracket_rules(bracket.group(1), violation.rule_id)
 
         # Check for noqa
